@@ -3,6 +3,8 @@ use std::process::Command;
 use time::OffsetDateTime;
 
 fn main() {
+    // verification hooks guard (see src/verif_hooks.rs); declares the cfg name only
+    println!("cargo:rustc-check-cfg=cfg(cicada_verif)");
     match Command::new("git")
         .args(["rev-parse", "--short", "HEAD"])
         .output()
